@@ -25,5 +25,9 @@ put("checks", "\n".join(rows))
 kf = json.load(open(os.path.join(root, "known_findings.json")))
 put("counts", f"{len(kf['fixed'])} repairs (`fix:` commits) and {len(kf['findings'])} known findings are recorded in `known_findings.json`; "
     f"{len(man['checks'])} properties are claimed, {len(man.get('not_applicable', []))} are listed as not applicable.")
+frows = ["| id | property | what fails | matched on |", "|---|---|---|---|"]
+for f in kf["findings"]:
+    frows.append(f"| `{f['id']}` | {f['property']} | {f['what'][:400]} | `{json.dumps(f['match'])[:200]}` |")
+put("findings", "\n".join(frows))
 open(p, "w").write(s)
 print("DESIGN.md regenerated")
